@@ -9,6 +9,8 @@ POOL = ["q0", "q1", "q2", "q3", "q4", "q5", "q6", "q7", "p0", "p1", "s", "t", "u
         # names that are another name followed by an alphabet symbol / by themselves (string-keyed caches, concatenated names)
         "q", "qa", "qb", "q00", "q01", "11", "qq"]
 SYMS = ["a", "b", "0", "1", "c"]
+ODD_SYMS = ["_", "ε"]                  # ordinary input symbols (\w) that other parts of the library write for the empty word
+UNDERSCORE_NAMES = ["s", "t", "u", "v", "s_t", "t_u", "u_v", "s_t_u", "t_u_v", "s_t_u_v"]
 EPS = ["", "ε", "_", "e"]
 EPS_NFA = EPS + ["eps", "lambda", "ea"]      # "any epsilon symbol": also multi-character ones that contain alphabet symbols
 REPS = ["dd_set", "total_dict", "dd_lambda"]
@@ -18,7 +20,10 @@ REPS = ["dd_set", "total_dict", "dd_lambda"]
 def names(draw, n, pool=POOL):
     """n distinct state names.  Mostly from the pool; one time in six consecutive numbered names that cross a digit boundary
     (q8 q9 q10 q11, s99 s100, ...): lexicographic and numeric order differ there, and fresh-name helpers count upwards."""
-    mode = draw(st.integers(0, 7)) if pool is POOL else 9
+    mode = draw(st.integers(0, 8)) if pool is POOL else 9
+    if mode == 2 and n <= len(UNDERSCORE_NAMES):
+        # names made of other names joined by '_': joined names of pairs are ambiguous (s + t_u == s_t + u)
+        return draw(st.lists(st.sampled_from(UNDERSCORE_NAMES), min_size=n, max_size=n, unique=True))
     if mode == 0:
         prefix = draw(st.sampled_from(["q", "q", "s", "p", "M", "M", "P", "trap", "q_accept"]))
         start = draw(st.sampled_from([0, 0, 1, 5, 8, 9, 10, 95, 99]))
@@ -32,8 +37,12 @@ def names(draw, n, pool=POOL):
     return draw(st.lists(st.sampled_from(pool), min_size=n, max_size=n, unique=True))
 
 
-def alphabets(lo=0, hi=3, syms=SYMS):
-    return st.lists(st.sampled_from(syms), min_size=lo, max_size=hi, unique=True).map(sorted)
+def alphabets(lo=0, hi=3, syms=SYMS, odd=False):
+    base = st.lists(st.sampled_from(syms), min_size=lo, max_size=hi, unique=True).map(sorted)
+    if not odd or hi < 1:
+        return base
+    with_odd = st.tuples(st.sampled_from(ODD_SYMS), st.lists(st.sampled_from(syms), min_size=max(lo - 1, 0), max_size=hi - 1, unique=True)).map(lambda t: sorted([t[0]] + t[1]))
+    return st.one_of(base, base, base, base, with_odd)
 
 
 def finals(draw, Q):
@@ -47,10 +56,10 @@ def finals(draw, Q):
 
 
 @st.composite
-def dfa_specs(draw, max_states=6, min_sigma=0, max_sigma=3, sigma=None, pool=POOL, min_states=1):
+def dfa_specs(draw, max_states=6, min_sigma=0, max_sigma=3, sigma=None, pool=POOL, min_states=1, odd=False):
     n = draw(st.integers(min_states, max_states))
     Q = draw(names(n, pool))
-    S = list(sigma) if sigma is not None else draw(alphabets(min_sigma, max_sigma))
+    S = list(sigma) if sigma is not None else draw(alphabets(min_sigma, max_sigma, odd=odd))
     d = [[Q[i], a, Q[draw(st.integers(0, n - 1))]] for i in range(n) for a in S]
     if draw(st.integers(0, 2)) == 0:
         # insertion order of the transition map (symbol-major, or arbitrary): printers and converters iterate over it
@@ -59,10 +68,10 @@ def dfa_specs(draw, max_states=6, min_sigma=0, max_sigma=3, sigma=None, pool=POO
 
 
 @st.composite
-def nfa_specs(draw, max_states=5, min_sigma=0, max_sigma=3, sigma=None, pool=POOL, eps_choices=EPS_NFA, min_states=1, max_trans=None):
+def nfa_specs(draw, max_states=5, min_sigma=0, max_sigma=3, sigma=None, pool=POOL, eps_choices=EPS_NFA, min_states=1, max_trans=None, odd=False):
     n = draw(st.integers(min_states, max_states))
     Q = draw(names(n, pool))
-    S = list(sigma) if sigma is not None else draw(alphabets(min_sigma, max_sigma))
+    S = list(sigma) if sigma is not None else draw(alphabets(min_sigma, max_sigma, odd=odd))
     eps = draw(st.sampled_from([e for e in eps_choices if e not in S]))
     labels = S + [eps] + ([eps] if S else [])      # epsilon moves a bit more likely
     m = draw(st.integers(0, max_trans if max_trans is not None else 3 * n))
@@ -197,5 +206,203 @@ def chain_nfa_specs(draw, min_states=5, max_states=12, eps_choices=EPS):
             "rep": draw(st.sampled_from(REPS))}
 
 
+@st.composite
+def ring_nfa_specs(draw, sigma=None, eps_choices=EPS):
+    """An epsilon cycle through 3-5 states with chords, entered from outside at several of its states by the same symbol, and left by symbols that
+    only some of its states can read: closures that are computed depth-first, cached or shared are exercised from every entry point."""
+    k = draw(st.integers(3, 5))
+    m = draw(st.integers(1, 3))
+    Q = draw(names(k + m))
+    ring, out = Q[:k], Q[k:]
+    S = list(sigma) if sigma else draw(st.sampled_from([["a", "b"], ["a", "b", "c"], ["a"]]))
+    eps = draw(st.sampled_from([e for e in eps_choices if e not in S]))
+    d, seen = [], set()
+
+    def add(p, a, q):
+        if (p, a, q) not in seen:
+            seen.add((p, a, q))
+            d.append([p, a, q])
+    for i in range(k):
+        add(ring[i], eps, ring[(i + 1) % k])
+    for _ in range(draw(st.integers(0, 2))):
+        add(ring[draw(st.integers(0, k - 1))], eps, ring[draw(st.integers(0, k - 1))])
+    for o in out:
+        a = S[draw(st.integers(0, len(S) - 1))]
+        for i in draw(st.lists(st.integers(0, k - 1), min_size=1, max_size=3, unique=True)):
+            add(o, a, ring[i])
+    for _ in range(draw(st.integers(1, 4))):
+        add(ring[draw(st.integers(0, k - 1))], S[draw(st.integers(0, len(S) - 1))], Q[draw(st.integers(0, k + m - 1))])
+    for _ in range(draw(st.integers(0, 2))):
+        add(out[draw(st.integers(0, m - 1))], S[draw(st.integers(0, len(S) - 1))], out[draw(st.integers(0, m - 1))])
+    order = draw(st.permutations(d))
+    return {"Q": list(draw(st.permutations(Q))), "S": S, "d": [list(t) for t in order], "q0": out[0] if draw(st.booleans()) else ring[draw(st.integers(0, k - 1))],
+            "F": finals(draw, Q), "eps": eps, "rep": draw(st.sampled_from(REPS))}
+
+
 def mixed_nfa_specs(**kw):
-    return st.one_of(nfa_specs(**kw), nfa_specs(**kw), nfa_specs(**kw), chain_nfa_specs())
+    ring = ring_nfa_specs(sigma=kw.get("sigma"), eps_choices=kw.get("eps_choices", EPS))
+    return st.one_of(nfa_specs(**kw), nfa_specs(**kw), nfa_specs(**kw), chain_nfa_specs(), ring)
+
+
+@st.composite
+def distance_dfa_specs(draw, min_states=6, max_states=10):
+    """DFAs with one (rarely two) accepting state(s) in which the distance to acceptance differs a lot between states and between routes:
+    a long chain on one symbol, shortcuts and back edges on the other, transition map in arbitrary insertion order.
+    Returns the spec; searches that prune by 'distance to a final state' have something to get wrong here."""
+    n = draw(st.integers(min_states, max_states))
+    Q = ["q%d" % i for i in range(n)]
+    S = draw(st.sampled_from([["a", "b"], ["a", "b"], ["a", "b", "c"]]))
+    chain = list(draw(st.permutations(list(range(n)))))
+    d = {}
+    for i, x in enumerate(chain):
+        d[Q[x], S[0]] = Q[chain[(i + 1) % n]] if draw(st.integers(0, 7)) else Q[draw(st.integers(0, n - 1))]
+        for a in S[1:]:
+            d[Q[x], a] = Q[draw(st.integers(0, n - 1))] if draw(st.integers(0, 2)) else Q[x]
+    F = [Q[chain[-1]]] + ([Q[draw(st.integers(0, n - 1))]] if draw(st.integers(0, 3)) == 0 else [])
+    items = [[p, a, q] for (p, a), q in d.items()]
+    items = list(draw(st.permutations(items)))
+    return {"Q": Q, "S": S, "d": items, "q0": Q[chain[draw(st.integers(0, 2))]], "F": sorted(set(F)), "eps": None}
+
+
+@st.composite
+def routes_dfa_specs(draw):
+    """A start state p -> q -> z, a junction z with two or three routes of different lengths to the single accepting state, a sink for everything else.
+    The transition map is inserted route by route, each route front-to-back or back-to-front, the blocks in arbitrary order: algorithms that
+    propagate information along the transitions in map order (distances, reachability, marking) need a different number of sweeps per route."""
+    S = ["a", "b", "c"] if draw(st.integers(0, 2)) == 0 else ["a", "b"]
+    k = len(S)
+    lens = [draw(st.integers(1, 4)) for _ in range(k)]
+    f, sink = "f", "x"
+    routes = [["r%d_%d" % (j, i) for i in range(lens[j])] for j in range(k)]
+    blocks = []
+    pre = ["p", "q", "z"][draw(st.integers(0, 2)):]          # 1-3 states in front of (and including) the junction
+    d = {}
+    head = []
+    for i in range(len(pre) - 1):
+        head.append((pre[i], S[0], pre[i + 1]))
+    blocks.append(head)
+    junction = [("z", S[j], routes[j][0]) for j in range(k)]
+    blocks.append(junction)
+    for j in range(k):
+        r = routes[j] + [f]
+        sym = S[draw(st.integers(0, k - 1))]
+        edges = [(r[i], sym, r[i + 1]) for i in range(len(r) - 1)]
+        if draw(st.booleans()):
+            edges.reverse()
+        blocks.append(edges)
+    order = list(draw(st.permutations(list(range(len(blocks))))))
+    items = [e for b in order for e in blocks[b]]
+    Q = pre + [x for r in routes for x in r] + [f, sink]
+    have = {(p, a) for p, a, _ in items}
+    rest = []
+    for p in Q:
+        for a in S:
+            if (p, a) not in have:
+                tgt = sink if draw(st.integers(0, 5)) else Q[draw(st.integers(0, len(Q) - 1))]
+                rest.append((p, a, tgt))
+    if draw(st.booleans()):
+        items = items + rest
+    else:
+        items = rest + items
+    return {"Q": Q, "S": S, "d": [list(t) for t in items], "q0": pre[0], "F": [f], "eps": None}
+
+
+def pair_universal_dfa(k, keep=None, names="plain"):
+    """k pairwise distinguishable base states B_0..B_{k-1} (B_i accepts exactly the words with at least i a's ... B_0 accepting),
+    a state P(i,j) with a -> B_i, b -> B_j for every ordered pair (or the pairs in `keep`), and a spine S_m (a -> m-th pair state, b -> S_{m+1})
+    that makes everything reachable.  The DFA is minimal: the pair states differ only in the classes of their successors, so a refinement
+    that identifies classes by an ambiguous key merges some of them.  Deterministic (no random choice)."""
+    B = ["B%d" % i for i in range(k)]
+    pairs = [(i, j) for i in range(k) for j in range(k) if keep is None or (i, j) in keep]
+    P = {(i, j): "P%d_%d" % (i, j) for i, j in pairs}
+    Sp = ["S%d" % m for m in range(len(pairs) + 1)]
+    d = []
+    for i in range(k):
+        d.append([B[i], "a", B[max(i - 1, 0)]])
+        d.append([B[i], "b", B[i]])
+    for (i, j), p in P.items():
+        d.append([p, "a", B[i]])
+        d.append([p, "b", B[j]])
+    for m, pr in enumerate(pairs):
+        d.append([Sp[m], "a", P[pr]])
+        d.append([Sp[m], "b", Sp[m + 1]])
+    d.append([Sp[-1], "a", Sp[-1]])
+    d.append([Sp[-1], "b", Sp[-1]])
+    return {"Q": B + list(P.values()) + Sp, "S": ["a", "b"], "d": d, "q0": Sp[0], "F": [B[0]], "eps": None}
+
+
+def pair_universal_dfa2(k):
+    """Variant with k <= 16 *accepting* base states C_i (told apart by which of four kinds of rejecting states their a- and b-successors are),
+    a rejecting state P(i,j) with a -> C_i, b -> C_j for every ordered pair, and a spine that makes everything reachable.  Minimal by construction
+    (except for the end of the spine); deterministic."""
+    assert 1 <= k <= 16
+    C = ["C%d" % i for i in range(k)]
+    pairs = [(i, j) for i in range(k) for j in range(k)]
+    P = {(i, j): "P%d_%d" % (i, j) for i, j in pairs}
+    E, Gg, Dd = "E", "G", "D"
+    Sp = ["S%d" % m for m in range(len(pairs) + 1)]
+    kinds = [(x, y) for x in "pegd" for y in "pegd"][:k]
+    d = []
+    for i in range(k):
+        tgt = {"p": P[i, i], "e": E, "g": Gg, "d": Dd}
+        d.append([C[i], "a", tgt[kinds[i][0]]])
+        d.append([C[i], "b", tgt[kinds[i][1]]])
+    for (i, j), p in P.items():
+        d.append([p, "a", C[i]])
+        d.append([p, "b", C[j]])
+    d += [[E, "a", C[0]], [E, "b", Dd], [Gg, "a", Dd], [Gg, "b", C[0]], [Dd, "a", Dd], [Dd, "b", Dd]]
+    for m, pr in enumerate(pairs):
+        d.append([Sp[m], "a", P[pr]])
+        d.append([Sp[m], "b", Sp[m + 1]])
+    d.append([Sp[-1], "a", Dd])
+    d.append([Sp[-1], "b", Dd])
+    return {"Q": C + list(P.values()) + [E, Gg, Dd] + Sp, "S": ["a", "b"], "d": d, "q0": Sp[0], "F": list(C), "eps": None}
+
+
+@st.composite
+def word_graph_dfa_specs(draw, max_hubs=3):
+    """A DFA obtained from a graph of 1-3 hub states whose edges carry words of 1-3 symbols (spelled out through intermediate states; a sink
+    catches the rest).  Half of the words are rotations or reversals of a word used before (a.b entering a hub whose loop reads b.a): state
+    elimination then meets labels that consist of the same factors in a different order."""
+    S = draw(st.sampled_from([["a", "b"], ["a", "b"], ["a", "b", "c"]]))
+    m = draw(st.integers(1, max_hubs))
+    used = []
+    edges = []
+    for h in range(m):
+        for first in S:
+            if draw(st.integers(0, 9)) < 7:
+                if used and draw(st.booleans()):
+                    w0 = used[draw(st.integers(0, len(used) - 1))]
+                    r = draw(st.integers(0, len(w0)))
+                    w = w0[r:] + w0[:r] if draw(st.booleans()) else w0[::-1]
+                    if w[0] != first:
+                        # keep the DFA deterministic: the word has to start with this edge's letter
+                        w = first + w[1:] if draw(st.booleans()) else first + w
+                    w = w[:3]
+                else:
+                    w = first + "".join(S[draw(st.integers(0, len(S) - 1))] for _ in range(draw(st.integers(0, 2))))
+                used.append(w)
+                edges.append((h, w, draw(st.integers(0, m - 1))))
+    n_mid = sum(len(w) - 1 for _, w, _ in edges)
+    Q = draw(names(m + n_mid + 1))
+    hubs, mids, sink = Q[:m], Q[m:m + n_mid], Q[-1]
+    d = {}
+    k = 0
+    for h, w, t in edges:
+        cur = hubs[h]
+        for i, ch in enumerate(w):
+            if i == len(w) - 1:
+                nxt = hubs[t]
+            else:
+                nxt = mids[k]
+                k += 1
+            d[cur, ch] = nxt
+            cur = nxt
+    for q in Q:
+        for a in S:
+            d.setdefault((q, a), sink)
+    F = [hubs[i] for i in range(m) if draw(st.integers(0, 2)) > 0] or [hubs[0]]
+    items = [[p, a, q] for (p, a), q in d.items()]
+    if draw(st.booleans()):
+        items = list(draw(st.permutations(items)))
+    return {"Q": list(draw(st.permutations(Q))), "S": S, "d": items, "q0": hubs[0], "F": F, "eps": None}
